@@ -553,7 +553,30 @@ def r09_10(ctx):
     ctx.floor('R09.10', 'inflate routines compared', n, 2)
 
 
+
+def r09_12(ctx):
+    """The fast assemblers fall back to the Kronecker assembler OF THE SAME FORM when no geometry is given: X_fast(kvs) returns X(kvs)
+    (wave 8: stiffness_fast(kvs) returned mass(kvs) -- symmetric, positive definite, right pattern, wrong operator)."""
+    n = 0
+    for name in ('mass_fast', 'stiffness_fast'):
+        f = ctx.prog.maybe_func(A + '.' + name)
+        if f is None:
+            continue
+        want = name[:-len('_fast')]
+        for r in guards.returns_of(f.node):
+            v = r.value
+            if isinstance(v, ast.Call) and isinstance(v.func, ast.Name) and v.func.id in ('mass', 'stiffness'):
+                n += 1
+                conds = ' and '.join(('' if p_ else 'not ') + t for (t, p_, _n) in guards.path_conditions(r, stop=f.node))
+                ctx.decide('R09.12', f.qual, 'fallback %s (under %s)' % (src(v), conds or 'always'), v.func.id == want, r,
+                           'without a geometry %s() delegates to %s()' % (name, want) if v.func.id == want else
+                           '%s() without a geometry returns %s(kvs): the fast path and the Kronecker / generic paths no longer describe the same '
+                           'bilinear form (K*1 != 0, energies of polynomials wrong)' % (name, v.func.id), definite=True)
+    ctx.floor('R09.12', 'geometry-free fallbacks of the fast assemblers', n, 2)
+
+
 def run(ctx):
+    r09_12(ctx)
     r09_10(ctx)
     r09_1(ctx)
     r09_2(ctx)
@@ -567,3 +590,7 @@ def run(ctx):
     ctx.shared(c17.r17_6, 'R17.6', 'R09.7')
     # R09.9 = R17.8: integrate / inner_products evaluate f at the mapped points iff f_physical
     ctx.shared(c17.r17_8, 'R17.8', 'R09.9')
+    # R09.11 = R01.4: every site that chooses the number of Gauss nodes takes the maximum degree over ALL directions (wave 8:
+    # inner_products took the degree of the last axis only -- load vectors under-integrated for mixed degrees)
+    import rules.C01 as c01
+    ctx.shared(c01.r01_4, 'R01.4', 'R09.11')
